@@ -173,7 +173,7 @@ func runProperty(repo, verif, cmd, id, tier string, verbose bool, filter string,
 	var results []*FuncResult
 	var keys []string
 	for k, fc := range e.contracts {
-		if hasProp(fc.Props, id) && !fc.Trusted && fc.Opts["looponly"] == "" {
+		if hasProp(fc.Props, id) && (!fc.Trusted || fc.Opts["verify-body"] != "") && fc.Opts["looponly"] == "" {
 			keys = append(keys, k)
 		}
 	}
